@@ -1,4 +1,5 @@
 (* Props/C09.v — property C09: World lifecycle and hook contract within an attempt. *)
+From CV Require Proofs.ReviewP2.
 From CV Require Import Model.Base Model.Events Model.Attempt Model.AttemptSpec Proofs.BaseP Proofs.AttemptP Proofs.AttemptP2.
 
 (* the after hook runs exactly once iff it is set — also after a failed or skipped step or a failed
@@ -39,3 +40,29 @@ Theorem C09_model_satisfies_the_lifecycle_contract :
            (map (fun c => (c, None)) (ao_calls (run_attempt i))) = true.
 Proof. exact attempt_c09. Qed.
 Print Assumptions C09_model_satisfies_the_lifecycle_contract.
+
+
+(* ---------- WITH WORLD INSTANCE IDS, AND THE STEP CALLBACKS TIED TO THE EVENTS (review finding M7) ----------
+   `C09_model_satisfies_the_lifecycle_contract` feeds no instance ids, so `same_instance` is trivially satisfied there. *)
+Theorem C09_lifecycle_contract_with_the_attempts_world :
+  forall i w,
+    c09_ok (is_some (ai_before i)) (is_some (ai_after i)) (ao_events (run_attempt i))
+      (ReviewP2.RC.tag_calls w (ao_calls (run_attempt i))) = true.
+Proof. exact ReviewP2.C09_lifecycle_contract_with_the_attempts_world. Qed.
+Print Assumptions C09_lifecycle_contract_with_the_attempts_world.
+
+(* the recogniser rejects ANY log in which two different World instances appear *)
+Theorem C09_two_world_instances_are_rejected :
+  forall hb ha evs (ocs : list ocall) c1 c2 w1 w2,
+    In (c1, Some w1) ocs -> In (c2, Some w2) ocs -> w1 <> w2 -> c09_ok hb ha evs ocs = false.
+Proof. exact ReviewP2.C09_two_world_instances_are_rejected. Qed.
+Print Assumptions C09_two_world_instances_are_rejected.
+
+(* `c09_ok` does not relate the ids of the step callbacks to the events (a log calling steps 77, 78, 79 for events about
+   steps 10 and 11 is accepted). `calls_match_events`: the step callbacks are, in order, exactly the steps the events
+   report as Passed or Failed with a panic payload; the model satisfies it, and it is demanded of the real runner's
+   callback log as well (Check/AttemptCheck.v) *)
+Theorem C09_step_callbacks_match_the_events :
+  forall i, ReviewP2.RC.calls_match_events (ao_events (run_attempt i)) (ao_calls (run_attempt i)) = true.
+Proof. exact ReviewP2.C09_step_callbacks_match_the_events. Qed.
+Print Assumptions C09_step_callbacks_match_the_events.
